@@ -761,6 +761,9 @@ def gen_queries(rng, n, cutoff, with_fock):
         qs.append({"m": "number_expectation", "modes": sub[:2]})
         qs.append({"m": "backend_state", "modes": sub})
         qs.append({"m": "backend_state", "modes": sorted(sub)[:-1] if len(sub) > 1 else sub})
+        qs.append({"m": "backend_state", "modes": [rng.randrange(1, n)]})
+        if n >= 3:
+            qs.append({"m": "backend_state", "modes": sorted(rng.sample(range(1, n), 2))})
     qs.append({"m": "fidelity_vacuum"})
     qs.append({"m": "fidelity_coherent", "alpha": [[round(rng.uniform(-0.4, 0.4), 2), round(rng.uniform(-0.4, 0.4), 2)] for _ in range(n)]})
     for _ in range(3):
@@ -1472,6 +1475,8 @@ def gen_fock_queries(rng, n, D):
         qs.append({"m": "reduced_dm", "modes": sub})
         qs.append({"m": "parity_expectation", "modes": sub})
         qs.append({"m": "number_expectation", "modes": sub})
+        if len(sub) < n:
+            qs.append({"m": "backend_state", "modes": sub})
     if n >= 2:
         for _ in range(2):
             sub = rng.sample(range(n), rng.randint(2, n))
